@@ -84,6 +84,8 @@ s_toint = z3.Function('s_toint', T.Str, T.IntS)      # its value
 
 
 def _int(eng, e, st, args, kw):
+    if len(args) != 1 or kw:
+        raise Unsupported('%s: int() with a base argument (line %d)' % (eng.cur.qualname, e.lineno))
     v = args[0]
     if isinstance(v, ZV) and v.shape == TInt:
         return v
@@ -605,6 +607,9 @@ def _decode(eng, e, st, val, valexpr, args, kw):
 
 def _readline(eng, e, st, args, kw):
     """file.readline(): the next line, '' at end of file; UnicodeError is possible for undecodable bytes"""
+    if len(args) > 1 or kw:
+        # readline(size) may return part of a line: a different function of the file, outside the model
+        raise Unsupported('%s: readline() with a size argument (line %d)' % (eng.cur.qualname, e.lineno))
     f = args[0]
     lines, pos = f.fields['lines'], f.fields['pos']
     k = st.choose(3)
@@ -654,8 +659,8 @@ _split_fns = {}
 
 
 def _split(eng, e, st, val, valexpr, args, kw):
-    if not (len(args) == 1 and isinstance(args[0], ZV) and args[0].pyval is not None):
-        raise Unsupported("split without a literal separator")
+    if kw or not (len(args) == 1 and isinstance(args[0], ZV) and args[0].pyval is not None):
+        raise Unsupported("split without a literal separator or with maxsplit")
     if args[0].pyval != '\t':
         sep = args[0].pyval
         key = ''.join('%02x' % ord(c) for c in sep)
